@@ -11,7 +11,7 @@ for id in "${ids[@]}"; do
     echo "$id ($prop): PATCH DOES NOT APPLY to the current tree: $(head -3 $S/patch.log | tr '\n' ' ')"; rm -rf $S; continue
   fi
   out=$(./check $prop --repo $S 2>&1 | grep -v "^WARNING"); rc=$?
-  viol=$(echo "$out" | grep "^VIOLATION" | sed 's/.*replay=[^ ]*\///; s/\.json//' | tr '\n' ' ')
+  viol=$(echo "$out" | grep "^VIOLATION" | sed 's/.*replay=[^ ]*\///; s/\.json.*//' | tr '\n' ' ')
   last=$(echo "$out" | tail -1)
   echo "$id ($prop): $last | caught by: ${viol:-NONE}"
   python3 - "$d" "$prop" "$viol" "$last" <<'PY'
